@@ -114,7 +114,7 @@ fn match_known<'a>(known: &'a [serde_json::Value], prop: Prop, f: &Found, scn: &
 
 const SESSION_LEN: u64 = 512;
 
-fn write_replay(prop: Prop, scn: &Scenario, f: &Found, original: &Scenario, attempts: usize, nondeterministic: bool, earlier: &[Scenario]) -> String {
+fn write_replay(prop: Prop, scn: &Scenario, f: &Found, original: &Scenario, attempts: usize, nondeterministic: bool, earlier: &[Scenario], process_death: bool) -> String {
     let dir = "/verif/replays";
     let _ = std::fs::create_dir_all(dir);
     let path = format!("{dir}/{}-seed{}-run{}-{}.json", prop.id(), scn.seed, scn.run_index, f.rule);
@@ -124,6 +124,7 @@ fn write_replay(prop: Prop, scn: &Scenario, f: &Found, original: &Scenario, atte
         "message": f.msg,
         "failing_run": f.label,
         "code_under_test_nondeterministic": nondeterministic,
+        "process_death": process_death,
         "expected_fingerprint": f.fingerprint.to_string(),
         "scenario": scn.to_json(),
         "earlier_scenarios_of_the_session": earlier.iter().map(|e| e.to_json()).collect::<Vec<_>>(),
@@ -142,6 +143,26 @@ fn write_replay(prop: Prop, scn: &Scenario, f: &Found, original: &Scenario, atte
 fn cmd_replay(env: &Env, file: &str) -> i32 {
     let text = std::fs::read_to_string(file).unwrap_or_else(|e| harness_error(&format!("cannot read {file}: {e}")));
     let j: serde_json::Value = serde_json::from_str(&text).unwrap_or_else(|e| harness_error(&format!("bad replay file: {e}")));
+    if j.get("process_death").and_then(|b| b.as_bool()).unwrap_or(false) && std::env::var("PROTOSIM_REPLAY_INNER").is_err() {
+        // what is replayed is the death of a process: do it in one we can lose
+        let exe = std::env::current_exe().unwrap_or_else(|e| harness_error(&format!("current_exe: {e}")));
+        let status = std::process::Command::new(exe)
+            .args(["replay", file])
+            .env("PROTOSIM_REPLAY_INNER", "1")
+            .stdout(std::process::Stdio::null())
+            .stderr(std::process::Stdio::null())
+            .status()
+            .unwrap_or_else(|e| harness_error(&format!("cannot spawn the replay: {e}")));
+        let prop = j.get("property").and_then(|p| p.as_str()).unwrap_or("?");
+        return if status.code().is_none() {
+            println!("reproduced: the process replaying this scenario died ({status})");
+            println!("VIOLATION property={prop} replay={file}");
+            1
+        } else {
+            println!("not reproduced: the scenario is checked to the end without the process dying");
+            0
+        };
+    }
     let prop = j.get("property").and_then(|p| p.as_str()).and_then(Prop::parse).unwrap_or_else(|| harness_error("replay file: property"));
     let rule = j.get("rule").and_then(|p| p.as_str()).unwrap_or_else(|| harness_error("replay file: rule")).to_string();
     let mut scn = Scenario::from_json(j.get("scenario").unwrap_or_else(|| harness_error("replay file: scenario")))
@@ -200,7 +221,13 @@ fn cmd_replay(env: &Env, file: &str) -> i32 {
 
 fn main() {
     let args: Vec<String> = std::env::args().collect();
-    std::panic::set_hook(Box::new(|_| {}));
+    // panics of the code under test are caught and recorded run by run; printing them would drown
+    // the log (VERIF_SHOW_PANICS=1 prints them, to debug the harness itself)
+    if std::env::var("VERIF_SHOW_PANICS").is_ok() {
+        std::panic::set_hook(Box::new(|i| eprintln!("panic: {i}")));
+    } else {
+        std::panic::set_hook(Box::new(|_| {}));
+    }
     let env = build_env();
     match args.get(1).map(|s| s.as_str()) {
         Some("programs") => {
@@ -212,6 +239,12 @@ fn main() {
             let file = args.get(2).unwrap_or_else(|| harness_error("replay needs a file"));
             std::process::exit(cmd_replay(&env, file));
         }
+        Some("try") => {
+            let prop = args.get(2).and_then(|s| Prop::parse(s)).unwrap_or_else(|| harness_error("try needs a property id"));
+            let from: u64 = args.get(3).and_then(|s| s.parse().ok()).unwrap_or_else(|| harness_error("try needs <from> <to>"));
+            let to: u64 = args.get(4).and_then(|s| s.parse().ok()).unwrap_or(from);
+            std::process::exit(cmd_try(&env, prop, from, to));
+        }
         Some("check") => {
             let prop = args.get(2).and_then(|s| Prop::parse(s)).unwrap_or_else(|| harness_error("check needs a property id handled by engine A"));
             std::process::exit(cmd_check(&env, prop, &args));
@@ -220,7 +253,107 @@ fn main() {
     }
 }
 
+/// The check proper runs in a child process (the *worker*); this process only supervises it. A
+/// process that dies (stack overflow, abort: `deserialize` returned neither Ok nor Err and no
+/// panic could be caught) takes its memory with it, so each session keeps the index of the
+/// scenario it is about to check in a marker file; the supervisor then re-runs the candidates one
+/// by one, each in a process of its own, to find the one that kills it.
 fn cmd_check(env: &Env, prop: Prop, args: &[String]) -> i32 {
+    if std::env::var("PROTOSIM_WORKER").is_ok() {
+        return cmd_check_worker(env, prop, args);
+    }
+    let exe = std::env::current_exe().unwrap_or_else(|e| harness_error(&format!("current_exe: {e}")));
+    let mdir = format!("/verif/.work/markers_{}", std::process::id());
+    let _ = std::fs::remove_dir_all(&mdir);
+    std::fs::create_dir_all(&mdir).unwrap_or_else(|e| harness_error(&format!("cannot create {mdir}: {e}")));
+    let status = std::process::Command::new(&exe)
+        .args(&args[1..])
+        .env("PROTOSIM_WORKER", &mdir)
+        .status()
+        .unwrap_or_else(|e| harness_error(&format!("cannot spawn the worker: {e}")));
+    if let Some(c) = status.code() {
+        let _ = std::fs::remove_dir_all(&mdir);
+        return c;
+    }
+    let rc = process_died(env, prop, args, &exe, &mdir, &format!("{status}"));
+    let _ = std::fs::remove_dir_all(&mdir);
+    rc
+}
+
+/// `protosim try <prop> <from> <to>`: check scenarios from..=to of this seed, one after the other
+fn cmd_try(env: &Env, prop: Prop, from: u64, to: u64) -> i32 {
+    let seed: u64 = std::env::var("VERIF_SEED").ok().and_then(|s| s.parse().ok()).unwrap_or(1);
+    let profile = checks::profile(prop, env);
+    for i in from..=to {
+        let scn = scenario::generate(&env.cat, &env.feats, &profile, simcore::rng::mix(seed, prop.tag(), 0), i);
+        let mut st = Stats::default();
+        let _ = check(prop, env, &scn, &mut st);
+    }
+    0
+}
+
+fn process_died(env: &Env, prop: Prop, _args: &[String], exe: &std::path::Path, mdir: &str, how: &str) -> i32 {
+    println!("the worker process died ({how}): looking for the scenario that kills it");
+    let seed: u64 = std::env::var("VERIF_SEED").ok().and_then(|s| s.parse().ok()).unwrap_or(1);
+    let profile = checks::profile(prop, env);
+    let mut candidates: Vec<(u64, u64)> = vec![];
+    if let Ok(rd) = std::fs::read_dir(mdir) {
+        for e in rd.flatten() {
+            let from: Option<u64> = e.file_name().to_string_lossy().strip_prefix('s').and_then(|x| x.parse().ok());
+            let cur: Option<u64> = std::fs::read_to_string(e.path()).ok().and_then(|t| t.trim().parse().ok());
+            if let (Some(f), Some(c)) = (from, cur) {
+                candidates.push((f, c));
+            }
+        }
+    }
+    candidates.sort();
+    let dies = |from: u64, to: u64| -> bool {
+        std::process::Command::new(exe)
+            .args(["try", prop.id(), &from.to_string(), &to.to_string()])
+            .stdout(std::process::Stdio::null())
+            .stderr(std::process::Stdio::null())
+            .status()
+            .map(|s| s.code().is_none())
+            .unwrap_or(false)
+    };
+    for (from, cur) in &candidates {
+        // alone first; then with the earlier scenarios of its session
+        let (first, earlier_needed) = if dies(*cur, *cur) {
+            (*cur, false)
+        } else if dies(*from, *cur) {
+            (*from, true)
+        } else {
+            continue;
+        };
+        let scn = scenario::generate(&env.cat, &env.feats, &profile, simcore::rng::mix(seed, prop.tag(), 0), *cur);
+        let earlier: Vec<Scenario> = if earlier_needed {
+            (first..*cur).map(|j| scenario::generate(&env.cat, &env.feats, &profile, simcore::rng::mix(seed, prop.tag(), 0), j)).collect()
+        } else {
+            vec![]
+        };
+        let f = Found {
+            rule: "H-total",
+            msg: format!(
+                "the process died ({how}) while this scenario was being checked: deserialize returned neither Ok nor Err, and nothing could be caught (a stack overflow or an abort){}",
+                if earlier_needed { "; only after the earlier scenarios of its session" } else { "" }
+            ),
+            label: "-".to_string(),
+            history: vec![],
+            outcome: "process death".to_string(),
+            fingerprint: 0,
+        };
+        let path = write_replay(prop, &scn, &f, &scn, 0, false, &earlier, true);
+        println!("violation: rule=H-total program={} [process death]", scn.program_name);
+        println!("  {}", f.msg);
+        println!("  document: {}", scn.doc.render());
+        println!("VIOLATION property={} replay={path}", prop.id());
+        return 1;
+    }
+    harness_error("the worker process died, but no scenario in flight kills a process of its own (out of memory? killed from outside?)")
+}
+
+fn cmd_check_worker(env: &Env, prop: Prop, args: &[String]) -> i32 {
+    let marker_dir = std::env::var("PROTOSIM_WORKER").unwrap_or_default();
     let tier = arg_value(args, "--tier").or_else(|| std::env::var("VERIF_TIER").ok()).unwrap_or_else(|| "quick".to_string());
     let tier = if tier == "thorough" { "thorough" } else { "quick" };
     let seed: u64 = std::env::var("VERIF_SEED").ok().and_then(|s| s.parse().ok()).unwrap_or(1);
@@ -268,9 +401,16 @@ fn cmd_check(env: &Env, prop: Prop, args: &[String]) -> i32 {
                     }
                     let (st_ref, fps_ref) = (&mut st, &mut local_fps);
                     let (profile, violations, fp_log) = (&profile, &violations, &fp_log);
+                    let marker_dir = &marker_dir;
                     let session = move || {
                     let (st, local_fps) = (st_ref, fps_ref);
+                    let marker_path = format!("{marker_dir}/s{from}");
+                    let marker = if marker_dir.is_empty() { None } else { std::fs::File::create(&marker_path).ok() };
                     for i in from..(from + chunk).min(n_scenarios) {
+                        if let Some(m) = &marker {
+                            use std::os::unix::fs::FileExt;
+                            let _ = m.write_at(format!("{i:020}").as_bytes(), 0);
+                        }
                         let scn = scenario::generate(&env.cat, &env.feats, profile, simcore::rng::mix(seed, prop.tag(), 0), i);
                         for (k, n) in scn.src_faults.as_pairs() {
                             st.bump(&format!("{k}_injected"), n as u64);
@@ -328,6 +468,9 @@ fn cmd_check(env: &Env, prop: Prop, args: &[String]) -> i32 {
                         if !found.is_empty() {
                             violations.lock().unwrap().push((i, scn, found, from));
                         }
+                    }
+                    if marker.is_some() {
+                        let _ = std::fs::remove_file(&marker_path);
                     }
                     };
                     if std::thread::scope(|s2| s2.spawn(session).join()).is_err() {
@@ -464,7 +607,7 @@ fn cmd_check(env: &Env, prop: Prop, args: &[String]) -> i32 {
             continue;
         }
         reported_rules.push(f.rule);
-        let path = write_replay(prop, &min_scn, &mf, scn, attempts, nondeterministic, &earlier);
+        let path = write_replay(prop, &min_scn, &mf, scn, attempts, nondeterministic, &earlier, false);
         // the replay file must reproduce the violation in a fresh process
         let exe = std::env::current_exe().unwrap_or_else(|e| harness_error(&format!("current_exe: {e}")));
         let out = std::process::Command::new(exe).arg("replay").arg(&path).output();
